@@ -32,9 +32,33 @@ def name_ref_text(g, n):
     return "'[%s]'!%s" % (b, n)
 
 
-def write_xlsx(g, dirpath, rnd=None, spell_rnd=None, qualify='min'):
-    """One .xlsx per book; returns {book: path}."""
+def _ext_link(target, sheets):
+    from openpyxl.packaging.relationship import Relationship
+    from openpyxl.workbook.external_link.external import (ExternalLink, ExternalBook,
+                                                           ExternalSheetNames)
+    el = ExternalLink(externalBook=ExternalBook(sheetNames=ExternalSheetNames(sheetName=sheets)))
+    el.file_link = Relationship(type='externalLinkPath', Target=target, TargetMode='External')
+    return el
+
+
+def write_xlsx(g, dirpath, rnd=None, spell_rnd=None, qualify='min', links=None):
+    """One .xlsx per book; returns {book: path}.  links='numeric': every book gets an
+    external-link table whose first entry is a file the library cannot read (LEGACY.XLS)
+    followed by the other books, and cross-book references are written [n]Sheet!A1."""
     impl.F()
+    import openpyxl
+    if links == 'numeric':
+        names = sorted({b for b, _ in g.sheets})
+        G.LINKS = {hb: {b: k + 2 for k, b in enumerate(x for x in names if x != hb)} for hb in names}
+        with open(os.path.join(dirpath, 'LEGACY.XLS'), 'wb') as fh:
+            fh.write(b'\xd0\xcf\x11\xe0 not a workbook this library can read')
+    try:
+        return _write_xlsx(g, dirpath, rnd, spell_rnd, qualify, links)
+    finally:
+        G.LINKS = None
+
+
+def _write_xlsx(g, dirpath, rnd, spell_rnd, qualify, links):
     import openpyxl
     from openpyxl.workbook.defined_name import DefinedName
     from openpyxl.worksheet.formula import ArrayFormula
@@ -68,6 +92,11 @@ def write_xlsx(g, dirpath, rnd=None, spell_rnd=None, qualify='min'):
         b, local, full = G.name_text(g, e)
         books[b].defined_names[n] = DefinedName(n, attr_text=local)
     paths = {}
+    if links == 'numeric':
+        for hb, wb in books.items():
+            wb._external_links.append(_ext_link('LEGACY.XLS', ['S1']))
+            for b, k in sorted(G.LINKS[hb].items(), key=lambda kv: kv[1]):
+                wb._external_links.append(_ext_link(b, sorted({s for bb, s in g.sheets if bb == b})))
     for b, wb in books.items():
         p = os.path.join(dirpath, b)
         wb.save(p)
@@ -119,9 +148,9 @@ def build_dict(g, rnd=None, spell_rnd=None):
     return f.ExcelModel().from_dict(dict_spelling(g, rnd, spell_rnd))
 
 
-def build_files(g, dirpath, rnd=None, spell_rnd=None, qualify='min', load='all'):
+def build_files(g, dirpath, rnd=None, spell_rnd=None, qualify='min', load='all', links=None):
     f = impl.F()
-    paths = write_xlsx(g, dirpath, rnd, spell_rnd, qualify)
+    paths = write_xlsx(g, dirpath, rnd, spell_rnd, qualify, links)
     order = sorted(paths)
     if rnd is not None:
         rnd.shuffle(order)
